@@ -170,7 +170,8 @@ def execute_here(plan, keep_events=False):
                 proc.node, proc.round = j, 0
                 kernel.set_current(proc)
                 try:
-                    cl.node_call(data_dir, T, N, j, C,
+                    cl.node_call(data_dir, T, N, j,
+                                 None if plan.get('cores_unspecified') else C,
                                  plan.get('delete_existing', False))
                     node_results[(0, j)] = 'returned'
                 except HarnessError:
@@ -425,6 +426,10 @@ def run_args_block(job):
                     'cpu_count': C + rng.choice([0, 0, 1, 8]),
                     'delete_existing': rng.random() < 0.3,
                     'listing_perm': perm}
+            if rng.random() < 0.2:
+                # -c not given: the command uses every CPU of the node
+                plan['cores_unspecified'] = True
+                plan['cpu_count'] = C
             o = execute(plan)
             absorb(summ, plan, o)
     return pack(summ)
